@@ -80,6 +80,7 @@ func (srv *Server) ListenAndServe() error {
 		srv.consumeTransports(ctx)
 		return nil
 	})
+	verifHook("las.serving", srv)
 
 	err := eg.Wait()
 
@@ -91,12 +92,16 @@ func (srv *Server) ListenAndServe() error {
 
 func acceptTransports(ctx context.Context, listener TransportListener, c chan<- Transport) error {
 	for {
+		verifHook("acc.accept", listener)
 		transport, err := listener.Accept(ctx)
 		if err != nil {
+			verifHook("acc.exit", listener, err)
 			return err
 		}
+		verifHook("acc.enqueue", listener, transport)
 		select {
 		case <-ctx.Done():
+			verifHook("acc.exit", listener, ctx.Err())
 			return ctx.Err()
 		case c <- transport:
 		}
@@ -105,8 +110,10 @@ func acceptTransports(ctx context.Context, listener TransportListener, c chan<- 
 
 func (srv *Server) consumeTransports(ctx context.Context) {
 	for {
+		verifHook("cons.select", srv)
 		select {
 		case <-ctx.Done():
+			verifHook("cons.exit", srv)
 			return
 		case t := <-srv.transportChan:
 			c := NewServerChannel(t, srv.config.ChannelBufferSize, srv.config.Node, uuid.NewString())
@@ -118,6 +125,7 @@ func (srv *Server) consumeTransports(ctx context.Context) {
 }
 
 func (srv *Server) handleChannel(ctx context.Context, c *ServerChannel) {
+	verifHook("sess.start", srv, c.transport)
 	err := c.EstablishSession(
 		ctx,
 		srv.config.CompOpts,
@@ -126,6 +134,7 @@ func (srv *Server) handleChannel(ctx context.Context, c *ServerChannel) {
 		srv.config.Authenticate,
 		srv.config.Register,
 	)
+	verifHook("sess.handshake", srv, c.transport, err)
 
 	if err != nil {
 		log.Printf("server: establish: %v\n", err)
@@ -145,6 +154,7 @@ func (srv *Server) handleChannel(ctx context.Context, c *ServerChannel) {
 	}
 
 	defer func() {
+		verifHook("sess.finish", srv, c.transport)
 		if c.Established() {
 			// Do not use the shared context since it could be canceled
 			ctx, cancel := context.WithTimeout(context.Background(), time.Second)
@@ -175,6 +185,7 @@ func (srv *Server) Close() error {
 
 	srv.shutdown()
 	srv.shutdown = nil
+	verifHook("close.cancelled", srv)
 
 	var errs []error
 
@@ -184,6 +195,7 @@ func (srv *Server) Close() error {
 		}
 	}
 
+	verifHook("close.listeners", srv)
 	close(srv.transportChan)
 	return multierr.Combine(errs...)
 }
